@@ -244,6 +244,26 @@ fn rand_ops(rng: &mut impl Rng, bits: usize, local: u64, len: usize, timeout: i6
         }
         ops.push(json!({"a": "ins", "k": far(o + cap + 1), "st": if rng.gen_bool(0.8) { "C" } else { "D" }}));
     }
+    if hot && ops.is_empty() && rng.gen_bool(0.35) {
+        // directed prefix 2 (after missed seeded mutant C37-1): a bucket holding disconnected AND connected entries gets a
+        // connected insert that goes pending; the pending entry is then downgraded to disconnected, the timeout elapses
+        // and the table is accessed: the applied entry must land among the disconnected ones without disturbing the rest
+        let far = |i: u64| (local ^ (nk >> 1)) ^ (i % (nk >> 1));
+        let o = rng.gen_range(0..(nk >> 1));
+        let cap = cap as u64;
+        let nd = rng.gen_range(1..=cap.max(2) - 1).min(cap);
+        for i in 0..cap {
+            ops.push(json!({"a": "ins", "k": far(o + i), "st": if i < nd { "D" } else { "C" }}));
+        }
+        ops.push(json!({"a": "ins", "k": far(o + cap), "st": "C"}));
+        ops.push(json!({"a": "upd", "k": far(o + cap), "st": "D"}));
+        if rng.gen_bool(0.3) {
+            ops.push(json!({"a": "upd", "k": far(o + cap - 1), "st": "C"}));
+        }
+        ops.push(json!({"a": "tick", "d": timeout.max(1)}));
+        ops.push(json!({"a": "get", "k": far(o + cap)}));
+        ops.push(json!({"a": "get", "k": far(o + cap - 1)}));
+    }
     for _ in 0..len {
         // hot runs: (almost) all keys from the farthest bucket, so that it fills up, gets a pending entry, loses and
         // regains members
